@@ -168,7 +168,7 @@ theorem handleTx_props (s : St) (e : Bool) (ht : Int) (tx : TxIn) (hp : LedAll P
     LedAll PropOK (handleTx s e ht tx).1.props := by
   by_cases hc : (handleTx s e ht tx).2.code = 0
   · by_cases h1 : tx.type = TRX_PROPOSAL
-    · obtain ⟨msg, start, period, applying, optType, opts, acc, hprops⟩ := proposal_success h1 hc
+    · obtain ⟨msg, start, period, applying, optType, opts, acc, hprops⟩ := proposal_successW h1 hc
       rw [hprops]
       refine hp.set _ _ _ ?_
       intro hty
